@@ -289,6 +289,12 @@ class NpShim:
         return _np.floor(x, **k)
 
     def ceil(self, x, **k):
+        if isinstance(x, Sym):
+            # a closed numeric expression (constants and square roots of constants): evaluate it
+            free = [v for v in core.variables([x.n]) if core.CTX.atoms[v].get('defn') is None]
+            if not free:
+                val = core.Point('closed', {}).eval(x.n)
+                return float(math.ceil(val - 1e-12))
         if _has_sym(x):
             raise EngineLimit('np.ceil of symbolic value')
         return _np.ceil(x, **k)
